@@ -294,6 +294,49 @@ func c20RunSessions(b core.Batch, r *core.Recorder) {
 	s := c20start()
 	defer s.srv.Close()
 	c20setHash(c20hash("right-password", c20salt16))
+	// fixed histories: a session with little (or much) of its lifetime left is used and / or logged out; after the
+	// logout the cookie must be dead at once and stay dead
+	for li, left := range []time.Duration{time.Second, 30 * time.Second, 5 * time.Minute, 9 * time.Minute, 10 * time.Minute, 11 * time.Minute, 50 * time.Minute} {
+		for variant := 0; variant < 2; variant++ {
+			id := fmt.Sprintf("age%d-%d", li, variant)
+			if !r.Case(id, map[string]any{"lifetime_left": left.String(), "use_before_logout": variant == 1}) {
+				continue
+			}
+			r.Eval(1)
+			cs := map[string]any{"id": id, "lifetime_left_at_logout": left.String(), "used_before_logout": variant == 1}
+			resp := s.do("POST", "/api/auth/login", "", `{"username":"admin","password":"right-password"}`, nil)
+			if resp.Status != 200 || !strings.Contains(resp.SetCookie, "reservoir.sid=") {
+				r.Violation("C20", "C20:login:right-password-refused", fmt.Sprintf("login with the right password was answered %d", resp.Status), cs, nil)
+				continue
+			}
+			sid := strings.SplitN(strings.SplitN(resp.SetCookie, "reservoir.sid=", 2)[1], ";", 2)[0]
+			se, ok := auth.GetSession(sid)
+			if !ok || se == nil {
+				r.NotJudged("session-not-found-after-login")
+				continue
+			}
+			se.ExpiresAt = time.Now().Add(left)
+			if variant == 1 {
+				if u := s.do("GET", "/api/auth/me", c20sidCookie(sid), "", nil); u.Status != 200 {
+					r.Violation("C20", "C20:live-session-refused", fmt.Sprintf("a session with %v left was refused (%d)", left, u.Status), cs, nil)
+				}
+			}
+			if lo := s.do("POST", "/api/auth/logout", c20sidCookie(sid), "", nil); lo.Status != 204 {
+				r.Violation("C20", "C20:logout-of-live-session-failed", fmt.Sprintf("status %d", lo.Status), cs, nil)
+			}
+			for k := 0; k < 2; k++ {
+				if u := s.do("GET", "/api/auth/me", c20sidCookie(sid), "", nil); u.Status != 401 {
+					r.Violation("C20", "C20:dead-session-accepted:use-after-logout", fmt.Sprintf("the session was logged out with %v of its lifetime left; request %d afterwards with its cookie answered %d", left, k+1, u.Status), cs, nil)
+					break
+				}
+			}
+			if _, still := auth.GetSession(sid); still {
+				r.Violation("C20", "C20:logged-out-session-still-in-the-store", fmt.Sprintf("the session was logged out with %v of its lifetime left and is still in the session store", left), cs, nil)
+			}
+			r.Count("logout_at_age_cases", 1)
+			r.Nontrivial("logout-at-age", left.String(), variant)
+		}
+	}
 	rng := b.Rand("c20-sessions")
 	n := b.Int("n", 40)
 	for h := 0; h < n; h++ {
@@ -316,7 +359,23 @@ func c20RunSessions(b core.Batch, r *core.Recorder) {
 			r.Violation("C20", "C20:"+sig, what, cs, nil)
 		}
 		for step := 0; step < 6+rng.IntN(10); step++ {
-			switch op := rng.IntN(6); {
+			switch op := rng.IntN(8); {
+			case op == 6: // login as somebody who does not exist, with passwords an attacker would try first
+				user := []string{"nobody", "administrator", "root", "", "Admin", "admin ", "admin\u0000"}[rng.IntN(7)]
+				pass := []string{"right-password", "placeholder", "", "admin", "password"}[rng.IntN(5)]
+				ops = append(ops, fmt.Sprintf("login-unknown-user(%q,%q)", user, pass))
+				body, _ := json.Marshal(map[string]string{"username": user, "password": pass})
+				resp := s.do("POST", "/api/auth/login", "", string(body), nil)
+				if resp.Status == 200 || resp.SetCookie != "" {
+					fail("login:unknown-user-accepted", fmt.Sprintf("login as %q (no such user) with password %q was answered %d with cookie %q", user, pass, resp.Status, resp.SetCookie))
+				}
+			case op == 7 && len(sessions) > 0: // age a live session: it stays live, with little (or much) of its lifetime left
+				m := sessions[rng.IntN(len(sessions))]
+				left := []time.Duration{30 * time.Second, 5 * time.Minute, 9 * time.Minute, 11 * time.Minute, 50 * time.Minute}[rng.IntN(5)]
+				ops = append(ops, "age-to-"+left.String()+"-left")
+				if m.live && m.sess != nil {
+					m.sess.ExpiresAt = time.Now().Add(left)
+				}
 			case op == 0: // login ok
 				ops = append(ops, "login-ok")
 				resp := s.do("POST", "/api/auth/login", "", `{"username":"admin","password":"right-password"}`, nil)
@@ -654,7 +713,7 @@ func init() {
 		ID:    "C20",
 		Level: "exploration",
 		Rule: "routes: every registered path (from the API's own endpoint list) x 7 methods x 11 cookie classes {absent, random, malformed, empty, logged-out, expired by 1 ns / 1 s / 9 min / 1 h / 10 y, session id under another cookie name}: 401 (404/405 for unregistered method/path pairs), no change of config (values + file) or of the user row, an expired cookie presented twice is refused twice and its expiry is not moved; live-session controls. " +
-			"sessions: seeded histories over {login ok, login bad, logout, expire by 1 ns..1 h, use} against a reference session table, plus 8 x 15 concurrent uses on the race build. login: 29 stored-hash classes (valid for the password, valid for another, malformed in every field incl. over-long salt) + random one-character mutations; an independent argon2 recomputation decides whether a mutated hash still verifies. " +
+			"sessions: seeded histories over {login ok, login bad, login as a user that does not exist (with the right / the default / common passwords), logout, expire by 1 ns..1 h, age a live session to 30 s..50 min left, use} against a reference session table, plus 8 x 15 concurrent uses on the race build. login: 29 stored-hash classes (valid for the password, valid for another, malformed in every field incl. over-long salt) + random one-character mutations; an independent argon2 recomputation decides whether a mutated hash still verifies. " +
 			"cross-site: Sec-Fetch-Site in 7 forms x Origin {absent, same, foreign} x every route and OPTIONS; only 'cross-site' is judged (403, no effect). Non-trivial = distinct combination / history / hash.",
 		Assumptions: []string{"/api/log and /api/log/stream are only probed without a live session (they need the process-global logger)", "site-ness cannot be decided from Origin alone: only requests the browser itself declares cross-site are judged", "stored hashes use cheap argon2 parameters so that the sweep is fast"},
 		Plan:        c20Plan,
